@@ -185,6 +185,18 @@ int main() {
           f.close();
           return f.good() ? "ok" : "io-error";
         }
+        if (t[0] == "hashfile" && t.size() == 2) {
+          // occa::hashFile must reflect the file's CURRENT contents, also within one process and
+          // within the same second as the previous write (same length included)
+          std::string p;
+          if (!hp::unhex(t[1], p)) return "bad-op";
+          std::ifstream in(p.c_str(), std::ios::binary);
+          if (!in) return "missing";
+          std::stringstream cur; cur << in.rdbuf();
+          const occa::hash_t got = occa::hashFile(p);
+          if (got != occa::hash(cur.str())) hp::oracle("hashFile(path) differs from the hash of the file's current contents (stale)");
+          return got.getFullString();
+        }
         if (t[0] == "rm" && t.size() == 2) {
           std::string p;
           if (!hp::unhex(t[1], p)) return "bad-op";
